@@ -4,8 +4,8 @@ import VelaVerif.Spec.Conflicts
 
 Execution model (trusted, hand-written): a kernel operation is executed as a sequence of *block
 jobs*.  OFM blocks (`OFM_BLK_*`) are visited depth first, then along the width, then along the
-height; a convolution runs one job per IFM depth slice of each OFM block and writes the block in the
-job of the last slice; every other operation runs one job per OFM block.  Jobs enter the pipeline in
+height; a convolution (and REDUCE_SUM) runs one job per IFM depth slice of each OFM block and writes the block
+in the job of the last slice; every other operation runs one job per OFM block.  Jobs enter the pipeline in
 order.  `BLOCKDEP = b` lets a job start while at most `b` earlier jobs are outstanding, so job `f` of an
 operation can run together with the `k`-th job from the end of the previous kernel operation exactly
 when `f + k < b`.  Only the read stage of the later job can overtake the write stage of the earlier
@@ -47,15 +47,21 @@ def boxPieces (fm : FM) (b : Box) : List Piece :=
 /-- number of blocks along one axis -/
 def nblk (size blk : Nat) : Nat := if blk = 0 then 0 else ceilDiv size blk
 
-/-- IFM depth slice of a convolution job: 256 bits per element row, rounded to the 8-deep micro block -/
-def ifmSliceDepth (b : BlockOp) : Nat :=
-  let bits := 8 * b.ifm.elemBytes
-  if bits = 0 then 1 else min (256 / bits) (ceilDiv b.ifm.depth 8 * 8)
+/-- operations that accumulate over IFM depth slices: convolution and REDUCE_SUM -/
+def slicesDepth (b : BlockOp) : Bool := b.kind == .conv || (b.kind == .pool && b.subOp = 2)
 
-def isConv (b : BlockOp) : Bool := b.kind == .conv
+/-- Depth of one IFM slice, as the SHRAM input-buffer layout requires it: 16-bit elements 16 channels
+    (rounded to 4), otherwise 32 channels — 16 with part-kernel-first traversal — rounded to the 8-deep micro
+    block.  (Taking the *smaller* plausible slice can only weaken what `checkPair` demands.) -/
+def ifmSliceDepth (b : BlockOp) : Nat :=
+  if b.ifm.elemBytes = 2 then ceilDiv (min b.ifm.depth 16) 4 * 4
+  else ceilDiv (min b.ifm.depth (if b.partKernelFirst then 16 else 32)) 8 * 8
+
+def isConv (b : BlockOp) : Bool := slicesDepth b
 
 /-- jobs per OFM block -/
-def slices (b : BlockOp) : Nat := if isConv b then max 1 (ceilDiv b.ifm.depth (ifmSliceDepth b)) else 1
+def slices (b : BlockOp) : Nat :=
+  if slicesDepth b then (if ifmSliceDepth b = 0 then 1 else max 1 (ceilDiv b.ifm.depth (ifmSliceDepth b))) else 1
 
 def totalBlocks (b : BlockOp) : Nat :=
   nblk b.ofm.width b.blkW * nblk b.ofm.height b.blkH * nblk b.ofm.depth b.blkD
@@ -90,7 +96,6 @@ def jobInputBox (b : BlockOp) (f : Nat) : Option Box := do
     if isConv b then
       let d := ifmSliceDepth b
       (min ((f % s) * d) b.ifm.depth, min ((f % s + 1) * d) b.ifm.depth)
-    else if b.kind == .pool && b.subOp = 2 then (0, b.ifm.depth)        -- REDUCE_SUM reads every channel
     else (min ob.c0 b.ifm.depth, min ob.c1 b.ifm.depth)
   some { y0 := y0, y1 := y1, x0 := x0, x1 := x1, c0 := c0, c1 := c1 }
 
